@@ -155,6 +155,24 @@ theorem length_writeExtStruct (exts : List (Nat × Nat × Bytes)) :
   rw [length_extTail, List.length_append]
   simp only [List.length_cons, List.length_nil]; omega
 
+theorem length_rfc4884Tail_icmp (type code id seq a b c : Nat) (lf : Bool) (isz : Option Nat)
+    (exts : List (Nat × Nat × Bytes)) :
+    (rfc4884Tail 4 isz exts).length = trailerSize (.icmp type code id seq a b c lf exts) isz := by
+  unfold rfc4884Tail trailerSize
+  by_cases he : exts.isEmpty = true
+  · simp [he]
+  · simp only [he, Bool.false_eq_true, if_false, List.length_append, length_writeExtStruct]
+    cases isz <;> simp <;> omega
+
+theorem length_rfc4884Tail_icmp6 (type code id seq : Nat) (lf : Bool) (isz : Option Nat)
+    (exts : List (Nat × Nat × Bytes)) :
+    (rfc4884Tail 8 isz exts).length = trailerSize (.icmp6 type code id seq lf exts) isz := by
+  unfold rfc4884Tail trailerSize
+  by_cases he : exts.isEmpty = true
+  · simp [he]
+  · simp only [he, Bool.false_eq_true, if_false, List.length_append, length_writeExtStruct]
+    cases isz <;> simp <;> omega
+
 theorem pppoe_tags_aux (tags : List (Nat × Bytes)) :
     (tags.foldr (fun (t, d) acc => w16 t ++ w16 d.length ++ d ++ acc) []).length
       = (tags.map (fun e => e.2.length + 4)).sum := by
@@ -203,20 +221,12 @@ theorem write_length (l : Layer) (rest : List Layer) (inner : Bytes) (parent : O
     simp only [write, headerSize, trailerSize, length_udpTail, List.length_append, length_w16,
       List.length_cons, List.length_nil]; omega
   | icmp type code id seq a b c lenflag exts =>
-    simp only [write, headerSize, trailerSize, length_icmpTail, List.length_append, length_w16,
-      List.length_cons, List.length_nil]
-    by_cases he : exts.isEmpty = true
-    · simp only [he, if_true, List.length_nil]
-      split <;> (try split) <;> simp <;> omega
-    · simp only [he, if_false, List.length_append, length_writeExtStruct]
-      cases hr : rest.isEmpty <;> simp [length_writeExtStruct] <;> (split <;> (try split) <;> simp <;> omega)
+    simp only [write, headerSize, length_icmpTail, List.length_append, length_w16,
+      List.length_cons, List.length_nil, length_rfc4884Tail_icmp type code id seq a b c lenflag]
+    split <;> (try split) <;> simp <;> omega
   | icmp6 type code id seq lenflag exts =>
-    simp only [write, headerSize, trailerSize, length_icmp6Tail, List.length_append, length_w16,
-      List.length_cons, List.length_nil]
-    by_cases he : exts.isEmpty = true
-    · simp only [he, if_true, List.length_nil]
-    · simp only [he, if_false, List.length_append, length_writeExtStruct]
-      cases hr : rest.isEmpty <;> simp [length_writeExtStruct] <;> omega
+    simp only [write, headerSize, length_icmp6Tail, List.length_append, length_w16,
+      List.length_cons, List.length_nil, length_rfc4884Tail_icmp6 type code id seq lenflag]
   | raw d => simp [write, headerSize, trailerSize]
   | pppoe code sess plen tags =>
     simp only [wf, decide_eq_true_eq] at hwf
